@@ -474,6 +474,7 @@ func TestCheck(t *testing.T) {
 		n := i % 9
 		var cfgs []ech.Config
 		var specs []ech.ConfigSpec
+		outOfGrammar := false
 		for j := 0; j < n; j++ {
 			s := genSpec(rng, rng.IntN(1<<20))
 			s.Version = 0xfe0d // ParseConfigList refuses lists that hold configs of other versions
@@ -491,6 +492,9 @@ func TestCheck(t *testing.T) {
 			s.MaximumNameLength = uint8(min(len(s.PublicName)+16, 255))
 			cfgs = append(cfgs, b)
 			specs = append(specs, s)
+			if len(s.PublicKey) == 0 || len(s.CipherSuites) == 0 || len(s.PublicName) == 0 {
+				outOfGrammar = true // HpkePublicKey<1..>, cipher_suites<4..>, public_name<1..255>: a parser may refuse the element
+			}
 		}
 		c := map[string]any{"n": n}
 		r.Guard("list", i, "list", c, func() {
@@ -520,6 +524,12 @@ func TestCheck(t *testing.T) {
 				r.Violate("list", i, "list:length-prefix", "list length prefix does not cover the list", c)
 			}
 			got, err := ech.ParseConfigList(enc)
+			if err != nil && outOfGrammar {
+				// a hand-made element with an empty vector where the grammar wants at least one entry: refusing the
+				// list is as good as parsing it (the statement speaks of what NewConfig / Bytes / ConfigList produce)
+				r.Count("lists_with_out_of_grammar_element_refused", 1)
+				return
+			}
 			if err != nil || len(got) != n {
 				r.Violate("list", i, "list:parse", fmt.Sprintf("ParseConfigList: err=%v n=%d want %d", err, len(got), n), c)
 				return
